@@ -25,8 +25,8 @@ RULE = (
 )
 BOUNDS = {"rows": "12-400", "features": "1-3"}
 ASSUMPTIONS = ["the byte string is not compared (hash-ordered feature lists are representation only)"]
-BUDGET = {"quick": 800, "thorough": 8000}
-DEADLINE_S = {"quick": 200, "thorough": 2400}
+BUDGET = {"quick": 800, "thorough": 30000}
+DEADLINE_S = {"quick": 200, "thorough": 3300}
 CLASSES = CARVERS + PIPELINES + STEPS + ("BinaryCarver", "ContinuousCarver", "Discretizer", "QuantitativeDiscretizer")
 INF = float("inf")
 POOLS = ["small_int", "dyadic", "half", "yyyymm", "big", "near", "tiny", "huge", "tenth", "tenth", "tenth"]
